@@ -15,6 +15,7 @@ RULE = ("frames from loaded G-sim traces (1-3 ranks): encoded, decoded into s_na
         "types present/absent) x random compositions of 1-4 filters; oracle = row-wise Python predicate per filter, composite == "
         "sequential, intersection in any order and idempotence for row-local members; the purity monitor (icontract on __call__ of "
         "every Filter class) checks input-unchanged / sub-sequence / row equality on every call, also those made by the loader. "
+        "Host annotations whose names merely contain 'Event Sync' / 'Context Sync'; one filter OBJECT reused on two traces with different symbol tables (A,B,A) and after the table grew. "
         "Non-trivial: application that selects a proper non-empty subset. Distinct = hash of (frame kind, filter spec, trace).")
 ASSUMPTIONS = ["an empty result is accepted whatever its columns", "a filter whose required column is absent returns the input unchanged (documented)",
                "NameFilter with a symbol table on a frame whose name column holds strings is not exercised (documented to match ids)"]
@@ -22,9 +23,11 @@ PLAN = {"quick": {"shards": 16, "cases": 320, "timeout": 900}, "thorough": {"sha
 _CLS = ("IterationFilter", "IterationIndexFilter", "RankFilter", "TimeRangeFilter", "NameFilter", "GPUKernelFilter", "CPUOperatorFilter",
         "CompositeFilter", "MemCopyEventFilter")
 FLOORS = {"quick": dict({"distinct_nontrivial": 100, "applications": 4000, "proper_subset_results": 1500, "decoded_name_filters": 150,
-                         "time_range_boundary_hits": 50, "laws_checked": 1000, "frames_with_repeated_index_labels": 200}, **{f"purity[{c}].post": 100 for c in _CLS}),
+                         "time_range_boundary_hits": 50, "laws_checked": 1000, "frames_with_repeated_index_labels": 200,
+                         "reused_filter_applications": 3000, "reused_filter_after_table_growth": 200}, **{f"purity[{c}].post": 100 for c in _CLS}),
           "thorough": dict({"distinct_nontrivial": 2500, "applications": 100000, "proper_subset_results": 35000, "decoded_name_filters": 3500,
-                            "time_range_boundary_hits": 1200, "laws_checked": 25000, "frames_with_repeated_index_labels": 3000}, **{f"purity[{c}].post": 2500 for c in _CLS})}
+                            "time_range_boundary_hits": 1200, "laws_checked": 25000, "frames_with_repeated_index_labels": 3000,
+                            "reused_filter_applications": 40000, "reused_filter_after_table_growth": 2500}, **{f"purity[{c}].post": 2500 for c in _CLS})}
 N_APPS = 36
 
 
@@ -41,8 +44,14 @@ def gen_case(rnd, tier: str, i: Any) -> Dict[str, Any]:
         p = gen_sim.random_params(rnd, tier, rank=r, first_step=first_step, n_steps=n_steps)
         tr = gen_sim.gen_trace(rnd, **p)
         gen_sim.drop_events(rnd, tr, p_launch=rnd.choice([0, 0.1]), p_kernel=rnd.choice([0, 0.1]))
+        if rnd.random() < 0.4:
+            # host annotations whose names merely contain the two device-side sync names
+            for k, e in enumerate(tr["traceEvents"]):
+                if k > 0 and e.get("ph") == "X" and e.get("cat") in ("cpu_op", "user_annotation") and "ProfilerStep" not in e["name"] \
+                        and "backward" not in e["name"] and rnd.random() < 0.12:
+                    e["name"] = rnd.choice(["Event Sync barrier", "Context Sync check", "Event Synchronize", "my Event Sync", "Context Sync"[:-1]])
         files[f"rank{r}.json"] = tr
-    return {"files": files, "app_seed": rnd.randrange(10 ** 9), "inc_last": rnd.random() < 0.5}
+    return {"files": files, "app_seed": rnd.randrange(10 ** 9), "inc_last": rnd.random() < 0.5, "reuse": True}
 
 
 # ------------------------------------------------------------------ filter specs -> (real filter, predicate over row dicts)
@@ -191,6 +200,76 @@ def random_spec(rnd, info) -> Dict[str, Any]:  # noqa: ANN001
                                                   "Memcpy PtoP (nowhere)"])}
 
 
+def _reuse_phase(case, ctx, res, t, st, rnd, tf) -> None:  # noqa: ANN001
+    """One filter OBJECT applied to frames of two different traces (two symbol tables with different id numbering), back and
+    forth, and to the first trace again after its table has grown: a filter is a function of (frame, table) only."""
+    import copy
+
+    files2 = {}
+    for fn, tr in list(case["files"].items())[-1:]:
+        tr2 = copy.deepcopy(tr)
+        for k, e in enumerate(tr2["traceEvents"]):
+            if k > 0 and e.get("ph") == "X" and "ProfilerStep" not in str(e.get("name")) and rnd.random() < 0.4:
+                e["name"] = str(e["name"]) + "_v2"
+        tr2["traceEvents"].append({"ph": "X", "cat": "cpu_op", "name": "aaa_only_in_second_trace", "pid": 1, "tid": 1,
+                                   "ts": tr2["traceEvents"][0]["ts"], "dur": 1, "args": {}})
+        files2[fn] = tr2
+    d2 = ctx.scratch.new("c18b")
+    try:
+        core.write_trace_files(d2, files2)
+        t2 = drv.new_trace(d2)
+        ok, _ = drv.guard(res, "load_traces (second trace)", t2.load_traces, include_last_profiler_step=case["inc_last"], use_multiprocessing=False)
+        if not ok:
+            return
+        st2 = t2.symbol_table
+        frames = [(t.get_trace(rnd.choice(t.get_ranks())).copy(), st), (t2.get_trace(t2.get_ranks()[0]).copy(), st2)]
+        for fr, _st in frames:
+            fr["_uid"] = range(len(fr))
+        for _ in range(6):
+            names = sorted({x for tab in (st, st2) for x in tab.get_sym_table() if isinstance(x, str)})
+            info = {"kind": "encoded", "string_name_col": None, "n_ranks": 1, "iterations": [], "starts": [0], "ends": [0], "names": names or ["x"], "pass_table": True}
+            kind = rnd.choice(["name", "name", "gpu", "cpu"])
+            spec = None
+            while spec is None or spec["kind"] != kind or spec.get("table_in_ctor"):
+                spec = random_spec(rnd, info)
+            flt = build(spec, tf, st, info)[0]                     # the one object that is reused
+            order = [0, 1, 0] if rnd.random() < 0.5 else [1, 0, 1]
+            for step, which in enumerate(order):
+                fr, tab = frames[which]
+                pred = build(spec, tf, tab, info)[2]
+                rows = rows_of(fr)
+                exp = pred(rows, list(fr.columns))
+                exp = [r["_label"] for r in rows] if exp is None else exp
+                ok, out = drv.guard(res, f"reused filter {spec}", flt, fr, tab)
+                res.counters["reused_filter_applications"] += 1
+                if not ok:
+                    break
+                got = out["_uid"].tolist() if len(out) else []
+                if got != exp:
+                    sym = tab.get_sym_table()
+                    res.bad("predicate", f"filter object {spec} reused on trace {'AB'[which]} (application #{step + 1}, order {order}): selected {len(got)} rows, "
+                            f"predicate selects {len(exp)}; wrongly selected {[sym[fr['name'].iloc[u]] for u in got if u not in set(exp)][:4]}, "
+                            f"wrongly dropped {[sym[fr['name'].iloc[u]] for u in exp if u not in set(got)][:4]}", specs=[spec], frame="reuse")
+                    break
+            # the first table grows; rows using the new symbol must be judged with the grown table
+            if kind == "name" and rnd.random() < 0.5:
+                new_sym = f"grown_symbol_{rnd.randrange(10 ** 6)}::" + rnd.choice(names)
+                st.add_symbols([new_sym])
+                fr = frames[0][0].copy()
+                if len(fr):
+                    fr.iloc[0, fr.columns.get_loc("name")] = st.get_sym_id_map()[new_sym]
+                    pred = build(spec, tf, st, info)[2]
+                    rows = rows_of(fr)
+                    exp = pred(rows, list(fr.columns))
+                    ok, out = drv.guard(res, f"reused filter {spec} after add_symbols", flt, fr, st)
+                    res.counters["reused_filter_after_table_growth"] += 1
+                    if ok and (out["_uid"].tolist() if len(out) else []) != exp:
+                        res.bad("predicate", f"filter object {spec} reused after the symbol table grew by {new_sym!r}: selected "
+                                f"{len(out)} rows, predicate selects {len(exp)}", specs=[spec], frame="reuse-grown")
+    finally:
+        ctx.scratch.drop(d2)
+
+
 def fixed_cases(tier: str):
     return [{"kind": "repo_tests", "file": "test_trace_filter.py"}] if tier == "thorough" else []
 
@@ -327,6 +406,8 @@ def run_case(case: Dict[str, Any], ctx: Any) -> core.CaseResult:
                 ok2, again = drv.guard(res, "filter (second application)", flt, out, st if need_st else None)
                 if ok2 and len(out) and ((again["_uid"].tolist() if "_uid" in again.columns else again.index.tolist()) if len(again) else []) != got_labels:
                     res.bad("idempotent", f"{tag}: applying the filter twice differs from applying it once")
+        if case.get("reuse"):
+            _reuse_phase(case, ctx, res, t, st, rnd, tf)
         res.nontrivial = nontrivial_keys > 0
         res.counters["nontrivial_applications"] += nontrivial_keys
         res.key = core.digest([case["files"], case["app_seed"]])
